@@ -18,7 +18,7 @@ def dtok(v):
     if k == "false": return "f"
     if k == "uint": return "u:%d" % v["n"]
     if k == "sint": return "i:%d" % v["n"]
-    if k == "real": return "d:%016x" % struct.unpack("<Q", struct.pack("<d", v["n"] / 2.0))[0]
+    if k == "real": return "d:%016x" % struct.unpack("<Q", struct.pack("<d", -0.0 if v["n"] == -1000001 else v["n"] / 2.0))[0]
     if k == "str": return "s:" + hexs(v["b"])
     if k == "arr": return " ".join(["["] + [dtok(x) for x in v["e"]] + ["]"])
     if k == "obj":
@@ -33,7 +33,7 @@ def itok(v):   # I-node scalar from the action record
     t = v["t"]
     return {"null": "n", "true": "t", "false": "f"}.get(t) or \
         ("u:%d" % v["n"] if t == "uint" else "i:%d" % v["n"] if t == "sint" else
-         "d:%016x" % struct.unpack("<Q", struct.pack("<d", v["n"] / 2.0))[0])
+         "d:%016x" % struct.unpack("<Q", struct.pack("<d", -0.0 if v["n"] == -1000001 else v["n"] / 2.0))[0])
 
 
 def step_row(bid, i, st):
